@@ -2,6 +2,7 @@ package main
 
 import (
 	"fmt"
+	"math/big"
 
 	sdkmath "cosmossdk.io/math"
 )
@@ -31,6 +32,15 @@ func (m *monC01) OnStep(r *Runner, st *Step) {
 	post := st.Post
 	pend := post.PendingUnbonding()
 	fl := flowsOf(st.Events)
+	// rewards withdrawn but not forwarded, per validator, with the precondition of the open finding checked on the
+	// pre-state: the validator has no alliance delegator shares, or no started asset staked on it carries weight
+	_, residues := settlementsOf(r, st.Events)
+	residueExcused := true
+	for _, rs := range residues {
+		if !residuePrecondition(st.Pre, rs.val) && !residuePrecondition(st.Post, rs.val) {
+			residueExcused = false
+		}
+	}
 	for i := range r.W.Cfg.Assets {
 		d := AllianceDenoms[i]
 		// reward coins of this denom withdrawn from x/distribution into the custody account and not
@@ -44,7 +54,11 @@ func (m *monC01) OnStep(r *Runner, st *Step) {
 			}
 			m.residue[d] = cur.Add(in.Sub(fwd))
 			r.Probe("c01_reward_residue")
-			r.Violate("C01.a", "custody-excess:reward-residue",
+			cls := "custody-excess:reward-residue"
+			if !residueExcused {
+				cls = "custody-excess:rewards-not-forwarded"
+			}
+			r.Violate("C01.a", cls,
 				fmt.Sprintf("denom %s: %s withdrawn from x/distribution into the custody account and %s forwarded to the rewards pool; the rest stays in custody owed to nobody", d, in, fwd))
 		}
 		custody := post.BalOf(r.W.ModuleAddr, d)
@@ -142,3 +156,27 @@ func (m *monC17) OnStep(r *Runner, st *Step) {
 }
 
 func (m *monC17) Finish(r *Runner) {}
+
+// residuePrecondition: rewards for val cannot be attributed to anyone - it has no alliance delegator shares,
+// or the staked reward weight of every started asset on it is (or rounds to) zero.
+func residuePrecondition(s *Snap, val string) bool {
+	vi, ok := s.ValInfos[val]
+	if !ok || len(vi.TotalDelegatorShares) == 0 {
+		return true
+	}
+	for _, d := range s.AssetOrder {
+		a := s.Assets[d]
+		if a.TotalTokens.IsZero() || s.Time.Before(a.RewardStartTime) {
+			continue
+		}
+		K := s.ValTokens(val, d)
+		if K.Sign() == 0 {
+			continue
+		}
+		w := rquo(rmul(ratDec(a.RewardWeight), K), ratInt(a.TotalTokens))
+		if w.Cmp(big.NewRat(1, 1_000_000_000_000_000_000)) >= 0 {
+			return false // some asset carries representable weight: the rewards belong to its delegators
+		}
+	}
+	return true
+}
